@@ -7,7 +7,7 @@ FAMILY = "run"
 
 MANIFEST = {
  "level": "other",
- "text": "Partly proved, partly explored. Proved (Props/C03.v): the interpreter model is a function of the program and environment TREES, the flags and the budget only - its value type has no representation - and it agrees with the implementation observation by observation (correspondence); on the allocator model every read the interpreter performs on an atom (bytes, length, small_number, atom_eq, number) depends only on the atom's bytes, whatever its representation (inline, heap, substring view) and whatever was allocated before (theorems of C14 re-exported); the inline fast path of environment lookup equals the generic one on the canonical encoding (traverse_path_fast v = traverse_path (bytes v) for all v < 2^26, incl. the leading-zero-byte cost at 7/15/23/31 bits). Not proved: the store-refinement theorem composing these (DESIGN.md appendix B.1). Decided by exploration: every generated program is run in a fresh allocator with parser-made atoms and again after a random allocator history (junk nodes, a failed run, a cached validated BLS point) with every atom re-encoded at random; result tree, cost and error kind must be equal, and equal to the model's prediction.",
+ "text": "Partly proved, partly explored. The interpreter model is by construction a function of the program and environment TREES, the flags and the budget (its value type has no representation), and it is compared with the implementation run in a fresh allocator and again after a random allocator history with every atom re-encoded (inline / heap / substring view). Proved about the allocator model (Props/C03.v): every read the interpreter performs through the allocator - small_number() used for keyword and opcode recognition and GC candidates, atom bytes, integer value, atom equality - is the tree-level function of the denoted tree whatever the representation; no later allocation, restore or failed operation changes what an existing node denotes (any history); the representation-dependent GC scheduling cannot change an outcome (C04). Not proved: the store-refinement theorem composing these into 'run on the arena = run on the denoted trees', the representation-dependent fast paths (C05) and the BLS validated-point cache (covered by the correspondence, which pre-loads it).",
  "note": vlib.NOTE_COMMON + " Level 'other': see text.",
  "technique": "Coq proof (representation-independence of allocator reads; fast path = generic path) + model/implementation differential run + implementation search fresh vs pre-populated/re-encoded allocator",
 }
